@@ -165,7 +165,7 @@ func vCheckValue(item int, v any, n16 [16]byte) {
 // new one is retrievable and the old one is gone
 func VerifC18_VoucherStore() {
 	verif.NoPanic()
-	verif.Bound("C18c", "one stored voucher (no entries, symbolic GUID and device info byte); replacement voucher whose GUID is another symbolic value (possibly the same)")
+	verif.Bound("C18c", "one stored voucher (no entries, symbolic GUID and device info byte); replacement voucher whose GUID is another symbolic value (possibly the same); optionally the write of the replacement fails")
 	vResetDB()
 	db := vNewDB()
 	bg := context.Background()
@@ -181,7 +181,12 @@ func VerifC18_VoucherStore() {
 	got, err := db.Voucher(bg, g1)
 	verif.Assert(err == nil && got.Header.Val.GUID == g1 && verif.StrEq(got.Header.Val.DeviceInfo, v1.Header.Val.DeviceInfo) && verif.BytesEq(got.Hmac.Value, v1.Hmac.Value), "the stored voucher is retrievable unchanged")
 	v2, g2 := mk("2")
+	// optionally the write of the replacement fails (storage fault)
+	if verif.Choose("insertfault", 2) == 1 {
+		vInsertFaultAt = vInserts + 1
+	}
 	err = db.ReplaceVoucher(bg, g1, v2)
+	vInsertFaultAt = 0
 	if err == nil {
 		got2, err := db.Voucher(bg, g2)
 		verif.Assert(err == nil && verif.BytesEq(got2.Hmac.Value, v2.Hmac.Value), "after replacing a voucher the new one is retrievable")
@@ -222,6 +227,25 @@ func VerifC18_RVBlobExpiry() {
 	ttl := verif.U32("ttl")
 	exp := t0.Add(time.Duration(ttl) * time.Second)
 	verif.Assert(db.SetRVBlob(bg, ov, blob, exp) == nil, "SetRVBlob")
+	if verif.Choose("reregister", 2) == 1 {
+		// the owner registers again with another address: the latest registration is the one served
+		blob2 := *blob
+		p2 := *blob.Payload
+		p2.Val.RV = []protocol.RvTO2Addr{{DNSAddress: &dns, Port: verif.U16("port2"), TransportProtocol: protocol.HTTPTransport}}
+		blob2.Payload = &p2
+		blob2.Signature = verif.Bytes("sig2", 64)
+		blob = &blob2
+		verif.Assert(db.SetRVBlob(bg, ov, blob, exp) == nil, "SetRVBlob again")
+	}
+	// a second device's registration is independent
+	var gB protocol.GUID
+	copy(gB[:], verif.Bytes("guidB", 16))
+	verif.AssumeMsg(gB != g, "two devices have different GUIDs")
+	hdrB := hdr
+	hdrB.GUID = gB
+	ovB := &fdo.Voucher{Version: 101, Header: *cbor.NewBstr(hdrB), Hmac: ov.Hmac}
+	farFuture := t0.Add(time.Duration(1<<31) * time.Second)
+	verif.Assert(db.SetRVBlob(bg, ovB, blob, farFuture) == nil, "SetRVBlob for a second device")
 	before := time.Now()
 	got, gov, err := db.RVBlob(bg, g)
 	after := time.Now() // the store read the clock between these two readings
@@ -235,4 +259,40 @@ func VerifC18_RVBlobExpiry() {
 	verif.Assert(!before.After(exp), "a blob is never returned after its expiry")
 	verif.Assert(got.Payload.Val.RV[0].Port == blob.Payload.Val.RV[0].Port && verif.BytesEq(got.Payload.Val.To0dHash.Value, blob.Payload.Val.To0dHash.Value) && verif.BytesEq(got.Signature, blob.Signature), "the blob returned is the blob registered")
 	verif.Assert(gov.Header.Val.GUID == g, "with its voucher")
+}
+
+// looking up one device's registration (expired or not) leaves other devices' registrations alone
+func VerifC18_RVBlobIndependent() {
+	verif.NoPanic()
+	verif.Bound("C18d independent", "two registered devices; the first with any TTL, the second far in the future; the first is looked up (found or expired), then the second must still be found")
+	vResetDB()
+	db := vNewDB()
+	bg := context.Background()
+	mk := func(tag string) (*fdo.Voucher, protocol.GUID) {
+		var g protocol.GUID
+		copy(g[:], verif.Bytes("guid"+tag, 16))
+		hdr := fdo.VoucherHeader{Version: 101, GUID: g, DeviceInfo: "d",
+			ManufacturerKey: protocol.PublicKey{Type: protocol.Secp256r1KeyType, Encoding: protocol.X509KeyEnc, Body: []byte{0x41, 0x00}}}
+		return &fdo.Voucher{Version: 101, Header: *cbor.NewBstr(hdr), Hmac: protocol.Hmac{Algorithm: protocol.HmacSha256Hash, Value: verif.Bytes("mac"+tag, 32)}}, g
+	}
+	ovA, gA := mk("A")
+	ovB, gB := mk("B")
+	verif.AssumeMsg(gA != gB, "two devices have different GUIDs")
+	dns := "o"
+	blob := &cose.Sign1[protocol.To1d, []byte]{Payload: cbor.NewByteWrap(protocol.To1d{
+		RV:       []protocol.RvTO2Addr{{DNSAddress: &dns, Port: 8080, TransportProtocol: protocol.HTTPTransport}},
+		To0dHash: protocol.Hash{Algorithm: protocol.Sha256Hash, Value: verif.Bytes("to0dhash", 32)},
+	})}
+	blob.Protected, blob.Unprotected = cose.HeaderMap{cose.AlgLabel: int64(cose.ES256Alg)}, cose.HeaderMap{}
+	blob.Signature = verif.Bytes("sig", 64)
+	t0 := time.Now()
+	verif.Assert(db.SetRVBlob(bg, ovA, blob, t0.Add(time.Duration(verif.U16("ttlA"))*time.Second)) == nil, "SetRVBlob A")
+	expB := t0.Add(time.Duration(1<<31) * time.Second)
+	verif.Assert(db.SetRVBlob(bg, ovB, blob, expB) == nil, "SetRVBlob B")
+	_, _, _ = db.RVBlob(bg, gA)
+	_, gov, err := db.RVBlob(bg, gB)
+	after := time.Now()
+	verif.AssumeMsg(!after.After(expB), "the second registration has not expired by the time it is looked up")
+	verif.Assert(err == nil && gov.Header.Val.GUID == gB, "another device's unexpired registration is still found after the first was looked up")
+	verif.Reached("end")
 }
